@@ -532,6 +532,21 @@ func checkJoinerFilter(c *Check) {
 		double := func(x *Term) bool {
 			return p.IsCall(x, "app.filterOut") && isAcc(x.Args[1]) && p.IsCall(x.Args[0], "app.filterOut") && isAcc(x.Args[0].Args[1])
 		}
+		// an early `return joiners, …` taken only when there are no joiners at all
+		emptyList := func(l Lit) bool {
+			a, b, op, okc := Cmp(l)
+			if !okc {
+				return false
+			}
+			if (op == "==" || op == "<=") && a.Op == "len" && b.IsConst("0") && sameAlts(a.Args[0], t) {
+				return true
+			}
+			return op == "==" && b.Op == "len" && a.IsConst("0") && sameAlts(b.Args[0], t)
+		}
+		if g, _ := fa.Gated(r, emptyList); g && !double(t) {
+			c.Hold(name, p.InstrPos(r), "joiners:filtered", "the unfiltered joiners are returned only when there are none")
+			continue
+		}
 		if !isPhi {
 			c.Req(double(t), name, p.InstrPos(r), "joiners:filtered", "the joiners returned are filtered by both put-aside sets", "returns "+t.String())
 			continue
